@@ -154,6 +154,10 @@ def run_case(desc):
         elif style == "dst":
             T0, kind = rng.choice(tr)
             pool = [T0 + d for d in rng.sample(range(-5400, 5400, 60), 40)]
+        elif rng.random() < 0.2:
+            # instants around (and before) 1970-01-01: local times on either side of the epoch, a few hours apart
+            kind = "spread"
+            pool = [d * 1800 + rng.randint(0, 1799) for d in rng.sample(range(-60, 60), 40)]
         else:
             kind = "spread"
             pool = [rng.randint(978307200, 1735689600) for _ in range(40)]  # 2001 .. 2025
@@ -168,7 +172,7 @@ def run_case(desc):
                 a, b = rng.randrange(len(inst)), rng.randrange(len(inst))
                 inst[a], inst[b] = inst[b], inst[a]
         S.clock.t = 1_900_000_000
-        same_zone_objects = kind == "fall" and zone != "UTC" and rng.random() < 0.35
+        same_zone_objects = kind in ("fall", "spring") and zone != "UTC" and rng.random() < (0.35 if kind == "fall" else 0.2)
         for i, t in zip(order, inst):
             st = S.stores[i]
             st.content = raw[i] if rp.role[i] != "psrc" else st.content
